@@ -91,6 +91,8 @@ Fixpoint remove_nth {A} (l : list A) (n : nat) : list A :=
 
 Definition Qeqb (a b : Q) : bool := Qeq_bool a b.
 
+Fixpoint qsum (l : list Q) : Q := match l with [] => 0%Q | x :: t => (x + qsum t)%Q end.
+
 (* failures of a batch of boolean checks: indices (as N) of the cases that fail *)
 Fixpoint failing_from {A} (f : A -> bool) (i : N) (l : list A) : list N :=
   match l with
